@@ -93,6 +93,9 @@ def run(ctx: Ctx) -> None:
             outs.append(check_case(ctx, case, tags))
     ctx.compare("Resampler", [g.lean_loop_case(c) for c in cases], outs, what="tick timeline (fire time, timestamp, recipients)")
 
+    from . import datapath  # full-stack stage: the same property through the real sourcing -> resampling -> formula stack
+    datapath.run_stage(ctx, {"C07-timeline"}, n_quick=40, n_thorough=600)
+
 
 def replay(ctx: Ctx, data: dict) -> None:
     python_flags()
